@@ -35,6 +35,8 @@ use serde_json::json;
 pub mod corr;
 #[path = "c01_api.rs"]
 pub mod api;
+#[path = "c01_typed.rs"]
+pub mod typed;
 
 struct Case {
     family: &'static str,
